@@ -126,6 +126,7 @@ class Executor:
         self.cur_line  = None
         self.ghost_hooks = spec.get('ghost', [])
         self.feas_calls = 0
+        self.specmode_lemma_only = False
         from .loops import number_loops
         self.loop_ord = number_loops(fsrc.body)
 
@@ -418,9 +419,17 @@ class Executor:
             i = self.as_int(st, idx)
             ln = ty.len(bv.term)
             self.fail(st, z3.Or(i >= ln, i < -ln), 'IndexError')
-            i = z3.simplify(z3.If(i < 0, i + ln, i)) if not \
-                (idx.has_py() and idx.py >= 0) else i
-            return ('i', i)
+            if idx.has_py() and idx.py >= 0:
+                return ('i', i)
+            if self.specmode:
+                # the spec language only indexes from the front
+                return ('i', i)
+            # python's negative indices: only encoded where the index can in
+            # fact be negative (keeps select terms usable as triggers)
+            g = z3.And(*(st.guards + [i < 0])) if st.guards else (i < 0)
+            if self.check(st, g) == z3.unsat:
+                return ('i', i)
+            return ('i', z3.If(i < 0, i + ln, i))
         if isinstance(ty, TMap):
             k = coerce(idx, ty.k)
             if not for_write:
@@ -661,6 +670,9 @@ class Executor:
         # python returns the deciding operand; we keep the operand type when
         # all operands agree, else only the truth value
         tys = {v.ty for v in vals}
+        if tys == {TBool}:
+            ts = [v.term for v in vals]
+            return Val(TBool, z3.And(*ts) if is_and else z3.Or(*ts))
         if len(tys) == 1 and not isinstance(vals[0], (PyTuple, PyDict)) \
            and vals[0].ty not in (TNone, TPy):
             res = vals[-1]
